@@ -338,6 +338,12 @@ TSweep ==
     /\ OnVerdict(Verdict(<< Cond("sweep-counts-are-consistent", {"HARNESS"}, Ev.n >= 0 /\ Ev.hits >= 0 /\ Ev.hits <= Ev.n) >>),
                  Advance /\ Same)
 
+\* an optional direct observation of an internal that the tree under test does not offer: nothing to judge
+TUnavailable ==
+    /\ ~skip
+    /\ Ev.e = "Unavailable"
+    /\ Advance /\ Same
+
 TMul2 ==
     /\ ~skip
     /\ Ev.e = "Mul2"
@@ -358,7 +364,7 @@ TraceInit ==
 TraceNext ==
     /\ l <= N
     /\ \/ TStart \/ TReset \/ TEnd \/ TSkip \/ TFault \/ TBegin \/ TDep \/ TRet
-       \/ TWords \/ TFind \/ TSweep \/ TMul2 \/ TEval \/ TStr
+       \/ TWords \/ TFind \/ TSweep \/ TUnavailable \/ TMul2 \/ TEval \/ TStr
 
 TraceSpec == TraceInit /\ [][TraceNext]_tvars
 
